@@ -80,6 +80,8 @@ def workdir():
 def make(case):
     m = snxgen.model(case['nstn'], case['soln'], case['vel'], case.get('blockdiag', False), case.get('order', 'station'),
                      dup=case.get('dup', 0), cancel=bool(case.get('cancel')))
+    if case.get('ctime'):
+        m['ctime'] = case['ctime']      # creation time of the INPUT file (it may coincide textually with the data start / end epoch)
     d = workdir()
     path = os.path.join(d, 'in.snx')
     snxgen.write(path, m, case['tri'], extra=bool(case.get('extra')))
@@ -206,6 +208,9 @@ def check_removed(rec, m, p_in, p, removed, one, co, op):
         bad.append(('header parameter count', p['npar'], len(keep)))
     if p['vel'] != exp_vel:
         bad.append(('header velocity flag', p['vel'], exp_vel))
+    if p['header'][:15] != p_in['header'][:15] or p['header'][27:60] != p_in['header'][27:60]:
+        # everything in the first line but the creation time, the parameter count and the velocity flag is the input's
+        bad.append(('header fields (agency / data span) changed', p['header'][:60], p_in['header'][:60]))
     got = [(e['type'], e['code'], e['soln'], e['value'], e['sd']) for e in p['est']]
     exp = [(pl[i][0], pl[i][1], str(pl[i][2]), m['est'][i], m['sd'][i]) for i in keep]
     if got != exp:
@@ -316,6 +321,12 @@ def gen_other(tier, seed):
         yield dict(cfg, op='velocity') if cfg['vel'] else dict(cfg, op='zeros', blockdiag=True)
         yield dict(cfg, op='zeros', blockdiag=False)
         yield dict(cfg, op='readers')
+        if cfg['nstn'] in (2, 4):
+            # an input file whose creation time reads exactly like its data start / data end epoch: only the creation time changes
+            for ct in ('20:100:00000', '20:093:00000'):
+                yield dict(cfg, op='velocity' if cfg['vel'] else 'zeros', ctime=ct, blockdiag=not cfg['vel'])
+                yield dict(cfg, op='zeros', ctime=ct, blockdiag=False)
+                yield dict(cfg, op='remove1', ctime=ct)
         if cfg['nstn'] in (2, 3, 5):
             # covariance lines whose values cancel exactly are not all-zero lines; sites with two solutions
             yield dict(cfg, op='zeros', blockdiag=False, cancel=True)
@@ -331,7 +342,13 @@ def ev_other(case, rec):
     op = case['op']
     co = {'nstn': case['nstn'], 'vel': case['vel'], 'tri': case['tri'], 'op': op}
     rec.nontriv((op, case['nstn'], case['soln'], case['vel'], case['tri'], case.get('blockdiag'), case.get('order'), case.get('dup'), case.get('cancel')))
-    if op == 'velocity':
+    if op == 'remove1':
+        first = [snxgen.codes(case['nstn'])[0]]
+        p = run_op(rec, 'remove', path, first, DEFAULT_CLOCK, case, co)
+        if p is not None:
+            rec.state(('rm1', case['nstn'], case['tri'], p['npar']))
+            rec.outcome('ok' if check_removed(rec, m, p_in, p, set(first), case, co, 'remove') else 'content-bad')
+    elif op == 'velocity':
         p = run_op(rec, 'velocity', path, None, DEFAULT_CLOCK, case, co)
         if p is not None:
             rec.state(('vel', case['nstn'], case['tri'], p['npar']))
